@@ -94,17 +94,16 @@ def gaussMap (spans : List K) (x w : List K) : List K × List K :=
 
 end Measure
 
-/-- Rows (last axis) of a tensor. -/
-def Tensor.rowsLast (t : Tensor K) : List (Array K) :=
-  let nc := t.shape.getLastD 1
-  (List.range (t.size / nc)).map (fun i => t.data.extract (i * nc) (i * nc + nc))
+/-- Row `i` of a result array of shape `… × dim` (flat C order): `t[i, :]`. -/
+def Tensor.rowAt (t : Tensor K) (dim i : ℕ) : Array K :=
+  Array.ofFn (n := dim) (fun c => t.get (i * dim + c.val))
 
 namespace Measure
 
-def sqNorm (v : Array K) : K := v.foldl (fun acc x => acc + x * x) 0
-
 def dotArr (u v : Array K) : K :=
   (List.range u.size).foldl (fun acc i => acc + u.getD i 0 * v.getD i 0) 0
+
+def sqNorm (v : Array K) : K := dotArr v v
 
 /-- `np.cross` of two 3-vectors. -/
 def cross3 (a b : Array K) : Array K :=
@@ -113,6 +112,25 @@ def cross3 (a b : Array K) : Array K :=
 
 /-- `np.cross` of two 2-vectors (the scalar z-component). -/
 def cross2 (a b : Array K) : K := a.getD 0 0 * b.getD 1 0 - a.getD 1 0 * b.getD 0 0
+
+/-- The Jacobian of `Volume.volume`, written out as in the source:
+`du0*(dv1*dw2-dv2*dw1) - du1*(dv0*dw2-dv2*dw0) + du2*(dv0*dw1-dv1*dw0)`. -/
+def jac3 (a b c : Array K) : K :=
+  let g (v : Array K) (i : ℕ) : K := v.getD i 0
+  g a 0 * (g b 1 * g c 2 - g b 2 * g c 1) - g a 1 * (g b 0 * g c 2 - g b 2 * g c 0)
+    + g a 2 * (g b 0 * g c 1 - g b 1 * g c 0)
+
+/-- `Σ_i w_i · f i` over the mapped weights of one direction (`np.dot`). -/
+def gaussSum1 (w : List K) (f : ℕ → K) : K :=
+  (List.range w.length).foldl (fun acc i => acc + w.getD i 0 * f i) 0
+
+/-- `w1.dot(F).dot(w2)`. -/
+def gaussSum2 (w1 w2 : List K) (f : ℕ → ℕ → K) : K :=
+  gaussSum1 w1 (fun i => gaussSum1 w2 (fun j => f i j))
+
+/-- `F.dot(w3).dot(w2).dot(w1)`. -/
+def gaussSum3 (w1 w2 w3 : List K) (f : ℕ → ℕ → ℕ → K) : K :=
+  gaussSum1 w1 (fun i => gaussSum1 w2 (fun j => gaussSum1 w3 (fun k => f i j k)))
 
 end Measure
 
@@ -157,11 +175,12 @@ def curveDerivative (o : Obj K) (tol : K) (ts : List K) (d : ℕ) (above : Bool)
     else o.derivativeGeneric tol [ts] [d] [above] true
   else .ok (o.curveDerivativeRational tol ts d above)
 
-/-- `Curve.length(t0, t1)` up to the square root: `(w, s)` with `length = Σ w_i √s_i`. -/
+/-- `Curve.length(t0, t1)` up to the square root: `(w, s)` with `length = Σ w_i √s_i`
+    (`s_i` = squared speed at node `i`). -/
 def lengthData (o : Obj K) (tol : K) (x w : List K) (t0 t1 : Option K) : PyM (List K × List K) := do
   let (t, wf) := gaussMap (o.lengthSpans tol t0 t1).toList x w
   let dx ← o.curveDerivative tol t 1 true
-  pure (wf, dx.rowsLast.map sqNorm)
+  pure (wf, (List.range t.length).map (fun i => sqNorm (dx.rowAt o.dimension i)))
 
 /-- `Surface.area()`.  Returns `(w1, w2, J, total)`: mapped weights per direction, the matrix `J`
     (row-major, `|w1| × |w2|`) of SQUARED area elements (dimension 3) or of `|du × dv|`
@@ -173,20 +192,19 @@ def areaData (o : Obj K) (tol : K) (x1 wt1 x2 wt2 : List K) :
   if (u.isEmpty ∧ (o.basis 0).periodic < 0) ∨ (v.isEmpty ∧ (o.basis 1).periodic < 0) then throw .value
   let du ← o.derivativeGeneric tol [u, v] [1, 0] [true, true] true
   let dv ← o.derivativeGeneric tol [u, v] [0, 1] [true, true] true
-  let pairs := List.zip du.rowsLast dv.rowsLast
-  if o.dimension = 3 then
-    pure (w1, w2, pairs.map (fun (a, b) => sqNorm (cross3 a b)), none)
-  else if o.dimension = 2 then
-    let J := pairs.map (fun (a, b) => |cross2 a b|)
-    let Ja := J.toArray
-    let n2 := w2.length
-    let total := (List.zip (List.range w1.length) w1).foldl (fun acc (i, a) =>
-      acc + a * (List.zip (List.range n2) w2).foldl (fun acc2 (j, c) => acc2 + Ja.getD (i * n2 + j) 0 * c) 0) 0
-    pure (w1, w2, J, some total)
+  let dim := o.dimension
+  let n2 := v.length
+  let idx : List (ℕ × ℕ) := (List.range u.length).flatMap (fun i => (List.range n2).map (fun j => (i, j)))
+  if dim = 3 then
+    pure (w1, w2, idx.map (fun (i, j) =>
+      sqNorm (cross3 (du.rowAt dim (i * n2 + j)) (dv.rowAt dim (i * n2 + j)))), none)
+  else if dim = 2 then
+    let J (i j : ℕ) : K := |cross2 (du.rowAt dim (i * n2 + j)) (dv.rowAt dim (i * n2 + j))|
+    pure (w1, w2, idx.map (fun (i, j) => J i j), some (gaussSum2 w1 w2 J))
   else throw .value   -- np.cross: incompatible dimensions for cross product
 
 /-- `Volume.volume()` (dimension 3): `np.abs(J).dot(w3).dot(w2).dot(w1)` with
-    `J = du·(dv × dw)` written out as in the source. -/
+    `J = du·(dv × dw)` written out as in the source (`jac3`). -/
 def volume (o : Obj K) (tol : K) (x1 wt1 x2 wt2 x3 wt3 : List K) : PyM K := do
   let (u, w1) := gaussMap ((o.basis 0).knotSpans tol false).toList x1 wt1
   let (v, w2) := gaussMap ((o.basis 1).knotSpans tol false).toList x2 wt2
@@ -194,43 +212,40 @@ def volume (o : Obj K) (tol : K) (x1 wt1 x2 wt2 x3 wt3 : List K) : PyM K := do
   let du ← o.derivativeGeneric tol [u, v, w] [1, 0, 0] [true, true, true] true
   let dv ← o.derivativeGeneric tol [u, v, w] [0, 1, 0] [true, true, true] true
   let dw ← o.derivativeGeneric tol [u, v, w] [0, 0, 1] [true, true, true] true
-  let J : Array K := (List.zip du.rowsLast (List.zip dv.rowsLast dw.rowsLast)).toArray.map
-    (fun (a, b, c) =>
-      let g (v : Array K) (i : ℕ) : K := v.getD i 0
-      g a 0 * (g b 1 * g c 2 - g b 2 * g c 1) - g a 1 * (g b 0 * g c 2 - g b 2 * g c 0)
-        + g a 2 * (g b 0 * g c 1 - g b 1 * g c 0))
-  let n2 := w2.length
-  let n3 := w3.length
-  let w2a := w2.toArray
-  let w3a := w3.toArray
-  pure ((List.zip (List.range w1.length) w1).foldl (fun acc (i, a) =>
-    acc + a * (List.range n2).foldl (fun acc2 j =>
-      acc2 + w2a.getD j 0 * (List.range n3).foldl (fun acc3 k =>
-        acc3 + |J.getD ((i * n2 + j) * n3 + k) 0| * w3a.getD k 0) 0) 0) 0)
+  let dim := o.dimension
+  let n2 := v.length
+  let n3 := w.length
+  pure (gaussSum3 w1 w2 w3 (fun i j k =>
+    let r := (i * n2 + j) * n3 + k
+    |jac3 (du.rowAt dim r) (dv.rowAt dim r) (dw.rowAt dim r)|))
 
 /-- `Curve.curvature(t)`: per point `(|v × a|², |v|²)`; curvature `= √(first) / (√second)³`.
     The scalar and the array branch of the source compute the same two numbers. -/
 def curvatureData (o : Obj K) (tol : K) (ts : List K) (above : Bool) : PyM (List (K × K)) := do
   let v ← o.curveDerivative tol ts 1 above
   let a ← o.curveDerivative tol ts 2 above
-  if o.dimension = 3 then
-    pure ((List.zip v.rowsLast a.rowsLast).map (fun (v, a) => (sqNorm (cross3 v a), sqNorm v)))
-  else if o.dimension = 2 then
-    pure ((List.zip v.rowsLast a.rowsLast).map (fun (v, a) => (cross2 v a * cross2 v a, sqNorm v)))
+  let dim := o.dimension
+  if dim = 3 then
+    pure ((List.range ts.length).map (fun i =>
+      (sqNorm (cross3 (v.rowAt dim i) (a.rowAt dim i)), sqNorm (v.rowAt dim i))))
+  else if dim = 2 then
+    pure ((List.range ts.length).map (fun i =>
+      (cross2 (v.rowAt dim i) (a.rowAt dim i) * cross2 (v.rowAt dim i) (a.rowAt dim i),
+       sqNorm (v.rowAt dim i))))
   else throw .value
 
 /-- `Curve.torsion(t)`: `none` for planar curves (the source returns zeros), else per point
-    `((v × a)·a', |v × a|²)`.  This follows the PROPERTY (and the array branch of the source);
-    the scalar branch of the pinned source forms `dot(w, a)` instead of `dot(w, da)`. -/
+    `((v × a)·a', |v × a|²)` — the array branch of the source; the scalar branch computes the same
+    since the fix of finding `torsion-scalar-branch-uses-acceleration`. -/
 def torsionData (o : Obj K) (tol : K) (ts : List K) (above : Bool) : PyM (Option (List (K × K))) := do
   if o.dimension = 2 then return none
   if o.dimension ≠ 3 then throw .value
   let v ← o.curveDerivative tol ts 1 above
   let a ← o.curveDerivative tol ts 2 above
   let da ← o.curveDerivative tol ts 3 above
-  pure (some ((List.zip v.rowsLast (List.zip a.rowsLast da.rowsLast)).map (fun (v, a, da) =>
-    let w := cross3 v a
-    (dotArr w da, sqNorm w))))
+  pure (some ((List.range ts.length).map (fun i =>
+    let w := cross3 (v.rowAt 3 i) (a.rowAt 3 i)
+    (dotArr w (da.rowAt 3 i), sqNorm w))))
 
 /-- `Curve.binormal(t)` / `Curve.normal(t)` before normalisation: per point `(v, w)` with
     `w = v × a'` where `a'` is the acceleration after the source's replacement of a vanishing
@@ -243,7 +258,9 @@ def frenetData (o : Obj K) (tol atol : K) (ts : List K) (above forNormal : Bool)
   if o.dimension ≠ 3 then throw (if forNormal then .runtime else .value)
   let v ← o.curveDerivative tol ts 1 above
   let a ← o.curveDerivative tol ts 2 above
-  pure ((List.zip v.rowsLast a.rowsLast).map (fun (v, a) =>
+  pure ((List.range ts.length).map (fun i =>
+    let v := v.rowAt 3 i
+    let a := a.rowAt 3 i
     let a' : Array K :=
       if a.all (fun x => decide (|x| ≤ atol)) then
         (if decide (|v.getD 0 0| ≤ atol) && decide (|v.getD 1 0| ≤ atol) then #[1, 0, 0] else #[0, 0, 1])
